@@ -243,6 +243,8 @@ def run(report, p):
                         r1.check(False, f, enclosing(u), f"`{var}` (result of {kind}) is used in OS listing order: no sort precedes this use", construct=f"unsorted use of {kind} result: {construct_text(enclosing(u))[:80]}")
                 if ok:
                     r1.check(True, f, call, "")
+            elif isinstance(par, ast.comprehension) and par.iter is call and _order_insensitive_consumer(par):
+                r1.check(True, f, call, "")
             elif isinstance(par, (ast.For, ast.comprehension)) and par.iter is call:
                 body = par.body if isinstance(par, ast.For) else []
                 eff = order_sensitive_effects(p, f, body, names_bound_in(body)) if body else [(par, "comprehension", None)]
@@ -369,6 +371,22 @@ def _guarded_fallback_params(f, key_expr):
             if isinstance(par, ast.If) and n in par.body and isinstance(par.test, ast.Compare) and len(par.test.ops) == 1 and isinstance(par.test.ops[0], (ast.Eq, ast.Is)) and norm(par.test.left) == k and isinstance(par.test.comparators[0], ast.Constant) and par.test.comparators[0].value is None:
                 out.add(n.value.id)
     return out
+
+
+def _order_insensitive_consumer(comp: ast.comprehension) -> bool:
+    """the comprehension feeds any()/all()/set()/len()/sum()/min()/max()/sorted() (no key) or is a set comprehension"""
+    c = parent(comp)
+    if isinstance(c, ast.SetComp):
+        return True
+    if isinstance(c, (ast.GeneratorExp, ast.ListComp)):
+        u = parent(c)
+        if isinstance(u, ast.Call) and u.args and u.args[0] is c:
+            nm = norm(u.func)
+            if nm in ("any", "all", "set", "frozenset", "len", "sum", "min", "max"):
+                return True
+            if nm == "sorted" and _sort_ok(u):
+                return True
+    return False
 
 
 def _under_relpath(t):
